@@ -248,7 +248,7 @@ theorem allinv_dispatch {w w' : World} (h : AllInv w) (hd : dispatch w = some w'
                   exact ⟨h1H.of_same (fun r => by simp) (fun q r => by simp), winv_cancelAwaiteds h1W _,
                     dr_cancelAwaiteds h1D _,
                     Silent.of_tgt (w := afterPop w t ev')
-                      (ec_cancelAwaiteds (tgt_closed _) internal_loud.event internal_loud.res _ _ h1S)
+                      (ec_cancelAwaiteds (tgt_closed _) internal_loud.event ⟨internal_loud.res, internal_loud.cond⟩ _ _ h1S)
                       (fun q => by simp)⟩
                 · split
                   · exact (allinv_resumeProc h1 _ _).silent
